@@ -160,7 +160,24 @@ func fileBytes(f *FileSpec) (data []byte, plain []byte, valid bool, format strin
 		case "damaged":
 			r := sim.NewRng(f.Seed)
 			img = append([]byte(nil), img...)
-			// a fault the format must detect: flip a bit (streams carry a check)
+			// a fault the format must detect: flip a bit (streams carry a check);
+			// in an archive of several streams (whose parts need not carry a
+			// check) the fault goes where a later stream begins - its magic
+			// bytes, or zero bytes that misalign it: detectable by any reader
+			if len(b.PartEnds) > 1 {
+				i := r.Intn(len(b.PartEnds) - 1)
+				start := b.PartEnds[i]
+				if i < len(f.Stream.Pads) {
+					start += f.Stream.Pads[i]
+				}
+				if r.Bool() {
+					img[start+r.Intn(6)] ^= 1 << uint(r.Intn(8))
+				} else {
+					img = append(append(append([]byte(nil), img[:start]...), make([]byte, r.Range(1, 3))...), img[start:]...)
+				}
+				ok := stillDecodes(img, b.Format, b.Content)
+				return img, b.Content, ok, b.Format
+			}
 			p := r.Intn(len(img))
 			img[p] ^= 1 << uint(r.Intn(8))
 			ok := stillDecodes(img, b.Format, b.Content)
